@@ -8,7 +8,16 @@ from _util import canon, err_info
 
 PRE = '''from dataclasses import dataclass, field
 from typing import Union, Optional, List, Dict, Tuple
+from typing_extensions import Annotated
 from dataclass_wizard import JSONWizard, LoadMeta, DumpMeta, fromdict, asdict, CatchAll
+from dataclass_wizard import KeyPath, path_field, json_field, json_key, skip_if_field, EQ
+from dataclass_wizard.v1 import Alias, AliasPath
+
+
+@dataclass
+class Inner:
+    x: int = 0
+    y: str = 'y'
 '''
 
 
@@ -22,12 +31,17 @@ def member_src(i, m, engine):
     if engine == 'v1' and (meta or m['style'] == 'inner'):
         meta['v1'] = True
     base = '(JSONWizard)' if m['style'] == 'inner' else ''
+    if m.get('base') is not None:
+        base = '(K%d)' % m['base']            # inheritance between members
     out = ['def _mk%d():' % i, '    @dataclass', '    class %s%s:' % (m['pyname'], base)]
     if m['style'] == 'inner' and meta:
         out.append('        class _(JSONWizard.Meta):')
         out.extend('            %s = %r' % kv for kv in meta.items())
-    for f, t, d in m['fields']:
-        out.append('        %s: %s%s' % (f, t, '' if d is None else ' = ' + d))
+    if 'body' in m:                           # rich member: declaration lines written by the harness
+        out.extend('        ' + line for line in m['body'])
+    else:
+        for f, t, d in m['fields']:
+            out.append('        %s: %s%s' % (f, t, '' if d is None else ' = ' + d))
     if m.get('catchall'):
         out.append('        extra: CatchAll = None')
     if m['style'] != 'inner' and meta:
@@ -126,12 +140,47 @@ def main():
         c = fromdict(C, full)
         return UNWRAP[pos](c.u)
 
+    def build(member, values):
+        """instance of member class from JSON values; nested dataclasses by the member's `kinds` map"""
+        kinds = cfg['members'][member].get('kinds', {})
+        kw = {}
+        post = {}
+        for f, v in values.items():
+            kd = kinds.get(f, 'plain')
+            if kd == 'inner':
+                v = ns['Inner'](**v)
+            elif kd == 'innerlist':
+                v = [ns['Inner'](**x) for x in v]
+            elif kd == 'noinit':
+                post[f] = v
+                continue
+            kw[f] = v
+        k = ns['K%d' % member](**kw)
+        for f, v in post.items():
+            setattr(k, f, v)
+        return k
+
     for op in cfg['ops']:
         r = {}
         try:
-            if op['op'] == 'roundtrip':
+            if op['op'] == 'retag':
+                # dump a member instance, replace / remove the tag in the dumped dict, load it
                 K = ns['K%d' % op['member']]
-                k = K(**op['values'])
+                k = build(op['member'], op['values'])
+                d = json.loads(json.dumps(asdict(C(u=WRAP[pos](k)))))
+                nested = UNWRAP[pos](d['u'])
+                tk = op['tag_key']
+                r['had_tag'] = nested.get(tk) if isinstance(nested, dict) else None
+                if op['tag'] is None:
+                    nested.pop(tk, None)
+                else:
+                    nested[tk] = op['tag']
+                k2 = UNWRAP[pos](fromdict(C, retype(d, kind)).u)
+                r['loaded_member'] = which(ns, n, k2)
+                r['loaded'] = canon(k2)
+            elif op['op'] == 'roundtrip':
+                K = ns['K%d' % op['member']]
+                k = build(op['member'], op['values'])
                 d = asdict(C(u=WRAP[pos](k)))
                 nested = UNWRAP[pos](d['u'])
                 r['dumped'] = canon(nested)
@@ -146,7 +195,7 @@ def main():
                 r['equal'] = (v2 == v and type(v2) is type(v))
             elif op['op'] == 'alone_dump':       # earlier use: the member class dumped on its own
                 K = ns['K%d' % op['member']]
-                r['dumped'] = canon(asdict(K(**op['values'])))
+                r['dumped'] = canon(asdict(build(op['member'], op['values'])))
             elif op['op'] == 'alone_load':       # earlier use: the member class loaded on its own
                 K = ns['K%d' % op['member']]
                 r['loaded'] = canon(fromdict(K, retype(json.loads(json.dumps(op['doc'])), kind)))
